@@ -79,6 +79,44 @@ pub fn run() -> i32 {
     if s != 499500 {
         bad += 1;
     }
+    // S5 / S6: simulated threads see the simulated clock and CPU count during a run; the harness
+    // thread and threads outside a run see the real ones
+    let real_cpus = std::thread::available_parallelism().map(|n| n.get()).unwrap_or(0);
+    let mut env_log = vec![];
+    for (clock_seed, cpus) in [(0u64, 0usize), (3, 5), (4, 16), (5, 64), (3, 5)] {
+        crate::seams::begin_env(clock_seed, cpus);
+        let cfg = Config { workers: 3, strategy: Strategy::Uniform, seed: 9, thread_start: Some(crate::seams::mark_sim_thread), ..Config::default() };
+        let (r, _) = sim::run(cfg, || {
+            let t0 = std::time::Instant::now();
+            let w0 = std::time::SystemTime::now();
+            let parts: Vec<(u128, usize)> = (0..64u32)
+                .into_par_iter()
+                .map(|_| (t0.elapsed().as_nanos(), std::thread::available_parallelism().map(|n| n.get()).unwrap_or(0)))
+                .collect();
+            let since = w0.duration_since(std::time::UNIX_EPOCH).map(|d| d.as_secs()).unwrap_or(0);
+            (parts, since)
+        });
+        let harness_cpus = std::thread::available_parallelism().map(|n| n.get()).unwrap_or(0);
+        let st = crate::seams::env_stats();
+        crate::seams::end_env();
+        let (parts, since) = r.unwrap();
+        let want_cpus = cpus.max(1).min(real_cpus.max(1).max(cpus.max(1)));
+        let cpus_seen: std::collections::BTreeSet<usize> = parts.iter().map(|p| p.1).collect();
+        let last = parts.last().unwrap().0;
+        println!("env clock_seed={} cpus={}: cpus_seen={:?} harness_cpus={} elapsed_last={}ns wall_secs={} reads={} jumps={} queries={}", clock_seed, cpus, cpus_seen, harness_cpus, last, since, st.clock_reads, st.clock_jumps, st.cpu_queries);
+        // (a cgroup CPU quota below the simulated count would cap it; there is none here)
+        if cpus_seen.len() != 1 || *cpus_seen.iter().next().unwrap() > want_cpus || harness_cpus != real_cpus || st.clock_reads != 66 || st.cpu_queries != 64 {
+            bad += 1;
+        }
+        if clock_seed == 0 && (parts.iter().map(|p| p.0).max() != Some(65) || since != 1_000_000_000) {
+            bad += 1;
+        }
+        env_log.push((clock_seed, cpus, parts, since));
+    }
+    // the same seeds give the same readings
+    if env_log[1] != env_log[4] || env_log[1].2 == env_log[2].2 {
+        bad += 1;
+    }
     println!("poolcheck: {}", if bad == 0 { "OK" } else { "FAILED" });
     if bad == 0 {
         0
